@@ -245,6 +245,14 @@ NESTED_LITS = [
     ("{ fn f(x: Uint<8, 1>) -> Uint<8, 1> { 1_U8 + x } f(2_U8) }", [(8, 3)]), ("match 0 { 0 => 0x10_U8 - 1_U8, _ => 0_U8 }", [(8, 15)]),
     ("if true { 1_U8 + 1_U8 } else { 0_U8 * 2_U8 }", [(8, 2)]), ("{ 2_U8 * 3_U8 }", [(8, 6)]), ("(|| { 4_U8 + 1_U8 })()", [(8, 5)]), ("{ 7_U9 << 1 }", [(9, 14)]),
     ("{ let mut a = 1_U8; a += 2_U8; { a } }", [(8, 3)]), ("loop { break 9_U8 - 1_U8; }", [(8, 8)]), ("{ 3_U65 & 1_U65 }", [(65, 1)]),
+    # a literal that goes through the macro TWICE (uint! inside uint!, or a helper macro that forwards to ruint::uint! used
+    # inside a uint! block): the first expansion's own output (limb constants) is walked again by the outer invocation -
+    # values whose limbs read like a suffixed literal when printed in hexadecimal (..B123, ..U64)
+    ("uint!(0xB123_U64)", [(64, 0xB123)]), ("uint!(45352_U16)", [(16, 45352)]), ("uint!(uint!(0xB456_U16))", [(16, 0xB456)]),
+    ("uint!(0b1011_0100_0101_0110_B16).into_inner()", [(16, 0xB456)]), ("uint!(0x000000000000b100_U64)", [(64, 0xB100)]),
+    ("uint!(0xB8_U8)", [(8, 0xB8)]), ("uint!(0x0B16_U16)", [(16, 0x0B16)]), ("uint!(0xB256_0000_0000_0000_B128_0000_0000_0000_B064_U192)", [(192, 0xB256_0000_0000_0000_B128_0000_0000_0000_B064)]),
+    ("{ macro_rules! fw { ($x:expr) => { ruint::uint!($x) } } fw!(45352_U16) }", [(16, 45352)]), ("{ macro_rules! fw { ($($t:tt)*) => { ruint::uint!{ $($t)* } } } fw!(0xB123_U64 + 1_U64) }", [(64, 0xB124)]),
+    ("uint!(0xB123_U64) + uint!(0xA000_B064_U64)", [(64, 0xB123 + 0xA000_B064)]),
     # doc comments are literals too (#[doc = "..."]): multi-byte text at several alignments
     ("{ /** Puffergr\u00f6\u00dfe in W\u00f6rtern. */ let x = 5_U8; x }", [(8, 5)]), ("{ /** \u00e9 */ let x = 6_U8; x }", [(8, 6)]), ("{ /** a\u20ac\u20ac\u20ac\u20acbcdefg */ let x = 7_U8; x }", [(8, 7)]),
     ("{ /** \u6570\u5024\u30ea\u30c6\u30e9\u30eb */ let x = 8_U8; x }", [(8, 8)]), ("{ /** \U0001F600\U0001F600\U0001F600 1U8 */ let x = 9_U8; x }", [(8, 9)]),
